@@ -14,6 +14,9 @@ def check(ctx):
     # (C10.a: the public iterator and the position adaptor forward `position` / `set_offset` / `next` to the implementation as
     # they are — a wrapper that clamps, caches or filters a queried offset answers for another offset than the one asked)
     cursor.analyze(ctx, RULES | {"C10.a"})
+    # the positions WithPositions attaches reach the user as computed: MatchExt / Position constructors store their arguments
+    from . import pC06 as _p6
+    _p6.data_api_rules(ctx, "C09.e")
     from . import adaptors
     adaptors.analyze(ctx, ("C09.g",))
     # (C06.e: positions are those of the caller's input: the iterator is created over that very string)
